@@ -11,7 +11,7 @@ def lua (line : String) : String :=
     match parseD (ds.splitOn " ") with
     | some (d, []) =>
       let once := ofLua (toLua d)
-      let r := if way == "param" then ofLua (toLua once) else once
+      let r := if way == "param" || way == "content" || way == "namelist" || way == "donedata" || way == "donecontent" then ofLua (toLua once) else once
       "value " ++ dumpNode (ofD r)
     | _ => "bad-op"
   | _ => "bad-op"
